@@ -17,7 +17,7 @@ def find(name, prop, seedv=7):
         ins, regime, _ = make_inputs(rng, name, n, 'walk')
         ins = [[float(round(v)) if k != 'v' else v for v in s] for s, k in zip(ins, CAT[name][0])]
         c = (name, ns, fs, ins, 'witness')
-        lines, go, model = run_both([c])
+        lines, go, model = run_both([c], spec=True)
         g, m = parse_ind(go['i0']), parse_ind(model['i0'])
         if g['status'] != 'ok' or m['status'] != 'ok':
             continue
@@ -25,11 +25,11 @@ def find(name, prop, seedv=7):
             bad = spec_compare(c, g, m)[0]
             if bad:
                 def fails(cand):
-                    l2, g2, m2 = run_both([cand], prefix='s')
+                    l2, g2, m2 = run_both([cand], prefix='s', spec=True)
                     gg, mm = parse_ind(g2['s0']), parse_ind(m2['s0'])
                     return gg['status'] == 'ok' and spec_compare(cand, gg, mm)[0] is not None
                 small = shrink_case(c, fails)
-                l2, g2, m2 = run_both([small], prefix='s')
+                l2, g2, m2 = run_both([small], prefix='s', spec=True)
                 gg, mm = parse_ind(g2['s0']), parse_ind(m2['s0'])
                 return small, spec_compare(small, gg, mm)[0], [[h2f(v) for v in s] for s in gg['outs']]
     return None
